@@ -31,7 +31,11 @@ SURR = ["\ud800", "\udfff", "\udc00\ud800"]
 NAMES = ["eml", "dataset", "title", "para", "x", "id", "children", "nsmap", "", "élément", "a b", "\U0001F600"]
 PREFIXES = ["a", "b", "c", "eml", "xsi", "stmml", "", "é"]
 URIS = ["u1", "u2", "u3", "https://eml.ecoinformatics.org/eml-2.2.0", "http://www.w3.org/2001/XMLSchema-instance", "", "中/\"q\""]
-KEYS = ["id", "system", "scope", "xml:lang", "k", "", "é", "a\"b", "\\"]
+KEYS = ["id", "system", "scope", "xml:lang", "k", "", "é", "a\"b", "\\",
+        # odd but legal key strings: Clark form {URI}local (URI bound in the maps the generators use, the XML namespace,
+        # an unbound one), keys with ':' '{' '}'
+        "{u1}x", "{u2}y", "{}z", "{http://www.w3.org/XML/1998/namespace}lang", "{unbound}y", "{https://eml.ecoinformatics.org/eml-2.2.0}id",
+        "a:b", ":", "{", "}", "{u1", "u1}x", "p:{u1}x"]
 
 
 def fresh(x):
@@ -138,6 +142,12 @@ def gen_history_tree(rng, max_nodes, surr=False, closed_bias=0.85):
                         k = parent[k]
                 nodes[k].remove_namespace(pfx)
                 hist.append(["remove", k, pfx])
+    for nd in nodes:
+        if nd.nsmap and rng.random() < 0.3:
+            uri = rng.choice(list(nd.nsmap.values()))
+            key = fresh("{" + uri + "}" + rng.choice(["x", "lang", ""]))
+            (nd.add_extras if rng.random() < 0.7 else nd.add_attribute)(key, rtext(rng, surr))
+            hist.append(["clark-key", nd.id, key])
     if closed_bias == 0.0:
         # leave the precondition on purpose: a child drops one of its parent's prefixes, and
         # sometimes a deeper node binds it again to something else
@@ -778,10 +788,16 @@ def gen_doc_snapshot(rng, surr=False, max_nodes=14):
                 hit[0][1] = u
             else:
                 m.append([p, u])
+        attrs, extras = pairs(KEYS, surr), pairs(KEYS, surr)
+        if m and rng.random() < 0.4:
+            key = fresh("{" + rng.choice(m)[1] + "}" + rng.choice(["x", "lang", ""]))
+            tgt = extras if rng.random() < 0.7 else attrs
+            if key not in [a for a, _ in tgt]:
+                tgt.append([key, ftext(rng, surr)])
         return {"id": new_id(k), "name": fresh(rng.choice(NAMES)) if rng.random() < 0.8 else ftext(rng, surr),
                 "content": None if rng.random() < 0.3 else ftext(rng, surr), "tail": None if rng.random() < 0.5 else ftext(rng, surr),
                 "prefix": None if rng.random() < 0.5 else fresh(rng.choice(PREFIXES)),
-                "attrs": pairs(KEYS, surr), "extras": pairs(KEYS, surr), "nsmap": m, "kids": []}
+                "attrs": attrs, "extras": extras, "nsmap": m, "kids": []}
     nodes = [node(0, [])]
     depth = {0: 1}
     for k in range(1, n):
